@@ -107,3 +107,40 @@ MUTANTS["C05"] = [
     M("twin-list-copy", DAP, "tokens = raw_args.tokens[:]", "tokens = list(raw_args.tokens)", twin=True),
     M("twin-reset-helper-order", DAP, "        self._arguments = OrderedDict()\n        self._options = OrderedDict()\n", "        self._options = OrderedDict()\n        self._arguments = OrderedDict()\n", twin=True),
 ]
+
+TBL = "src/clikit/ui/components/table.py"
+TST = "src/clikit/ui/style/table_style.py"
+XTR = "src/clikit/ui/components/exception_trace.py"
+
+MUTANTS["C14"] = [
+    M("render-pops-own-rows", TBL, "        wrapper = self._get_cell_wrapper(\n", "        self._rows.pop()\n        wrapper = self._get_cell_wrapper(\n", expect="C14-R1"),
+    M("draw-own-rows", TBL, "            wrapper.wrapped_rows,\n", "            self._rows,\n", expect="C14-R1"),
+    M("header-inserted-into-rows", TBL, "        for row in self._rows:\n            for cell in row:\n                wrapper.add_cell(cell)\n",
+      "        rows = self._rows\n        rows.insert(0, self._header_row)\n        for row in rows:\n            for cell in row:\n                wrapper.add_cell(cell)\n", expect="C14-R1"),
+    M("cells-stripped-in-place", TBL, "        for row in self._rows:\n            for cell in row:\n                wrapper.add_cell(cell)\n",
+      "        for row in self._rows:\n            for i, cell in enumerate(row):\n                row[i] = cell.rstrip()\n                wrapper.add_cell(row[i])\n", expect="C14-R1"),
+    M("twin-copy-rows", TBL, "        for row in self._rows:\n            for cell in row:\n", "        for row in list(self._rows):\n            for cell in list(row):\n", twin=True),
+]
+
+MUTANTS["C17"] = [
+    M("f13-regression", TST, "style.border_style = copy(BorderStyle.none())\n        style.border_style.line_hc_char = \"=\"",
+      "style.border_style = BorderStyle.none()\n        style.border_style.line_hc_char = \"=\"", expect="C17-R1"),
+    M("ascii-shares-cache", TST, "style.border_style = copy(BorderStyle.ascii())", "style.border_style = BorderStyle.ascii()", expect="C17-R1"),
+    M("f14-regression", HRS,
+      "        try:\n            return super(HelpResolver, self).create_resolved_command(result)\n        finally:\n            if not was_lenient:\n                config.disable_lenient_args_parsing()\n",
+      "        resolved = super(HelpResolver, self).create_resolved_command(result)\n        if not was_lenient:\n            config.disable_lenient_args_parsing()\n        return resolved\n",
+      expect="C17-R2"),
+    M("never-disabled", HRS, "            if not was_lenient:\n                config.disable_lenient_args_parsing()\n", "            pass\n", expect="C17-R2"),
+    M("f16-regression", XTR, "cache_key = (frame, 2, 2, io.supports_utf8())", "cache_key = (frame, 2, 2)", expect="C17-R4"),
+    M("f18-regression", HRS,
+      "            try:\n                return super(HelpResolver, self).resolve(args, application)\n            finally:\n                tokens.insert(0, self._help_command_name)\n",
+      "            return super(HelpResolver, self).resolve(args, application)\n", expect="C17-R3"),
+    M("class-level-list-appended", "src/clikit/ui/components/paragraph.py", "    def __init__(self, text):  # type: (str) -> None\n        self._text = text\n",
+      "    _seen = []\n\n    def __init__(self, text):  # type: (str) -> None\n        self._text = text\n        self._seen.append(text)\n", expect="C17-R6"),
+    M("render-consumes-text", "src/clikit/ui/components/paragraph.py", "        io.write(line_prefix + text.rstrip() + \"\\n\")\n",
+      "        io.write(line_prefix + text.rstrip() + \"\\n\")\n        self._text = \"\"\n", expect="C17-R5"),
+    M("table-render-mutates-rows", TBL, "        wrapper = self._get_cell_wrapper(\n", "        self._rows.reverse()\n        wrapper = self._get_cell_wrapper(\n", expect="C17-R5"),
+    M("twin-deepcopy-border", TST, "style.border_style = copy(BorderStyle.solid())", "style.border_style = copy(copy(BorderStyle.solid()))", twin=True),
+    M("twin-key-inline", XTR, "                        cache_key = (frame, 2, 2, io.supports_utf8())\n                        if cache_key not in self._FRAME_SNIPPET_CACHE:",
+      "                        utf8 = io.supports_utf8()\n                        cache_key = (frame, utf8)\n                        if cache_key not in self._FRAME_SNIPPET_CACHE:", twin=True),
+]
